@@ -38,6 +38,9 @@ CHECKS = {
     "C11": ("model_checking", MC,
             "Three real members race in one epoch; every interleaving (to the depth bound) of commit / commit_detached / clear / apply / apply_detached with any kept secrets / delivery of any candidate commit, with any candidate as the epoch's winner, is executed and judged against a reference machine {epoch, pending} per member, complete-state equality for what must not change, and the epoch ledger for what advances.",
             "Trusted: explorer, hook verif_state. 3 members, depth 4 (quick) / 6 (thorough), public and encrypted handshake.", "DESIGN.md 2/C11"),
+    "C12": ("model_checking", "bounded-exhaustive input enumeration: every offset x boundary byte set, every truncation, every length-prefix rewrite of every item of a corpus of real messages and stored values; all 1/2-byte (thorough: all 4-byte) varints; enumerated Arbitrary seeds",
+            "Every corpus item (all message kinds, exported trees, stored snapshots and epoch records, commit secrets, cached proposals, external snapshots; public and encrypted configurations) round-trips with exact length; every single-byte boundary replacement, truncation and length-prefix rewrite decodes to Err or to a value whose re-encoding is the consumed bytes, without panic and within an allocation bound measured by a counting allocator; varints are accepted exactly in shortest form.",
+            "Trusted: explorer, counting global allocator, reference varint reader. Hash-map backed storage formats are judged on length/panic/allocation only (no canonical byte order exists for them).", "DESIGN.md 2/C12"),
     "C13": ("model_checking", GRID + "; plus conformance of every epoch of scripted real groups to the reference (shadow joiner)",
             "Every derivation (key schedule, secret tree, per-generation keys, PSK chain, exporter, ExpandWithLabel) is compared with an independent RFC 9420 implementation over an enumerated input grid for every suite of every provider, and every epoch of scripted real groups is re-derived by the reference from the Welcome's joiner secret / the previous init secret and compared with what the members hold, including transcript hashes and tags recomputed from wire bytes.",
             "Trusted: reference::keysched on sha2/hmac; hook derive::* (thin wrappers over the crate-private functions) and verif_epoch_keys (read-only).", "DESIGN.md 2/C13"),
